@@ -126,6 +126,10 @@ class H5DataSet:
             if name in self.dataset.attrs:
                 del self.dataset.attrs[name]
         else:
+            if isinstance(value, str):
+                # h5py removes the previous value before it finds out that
+                # the new text cannot be stored
+                util.check_text_storable(value)
             self.dataset.attrs[name] = value
 
     def get_attr(self, name):
